@@ -1,6 +1,8 @@
 """C11  Episodes end exactly at the configured time limit (and within a known horizon)."""
 import inspect
 
+import numpy as np
+
 from checks import common as C
 from checks import drivers as D
 from engine.vexpr import vs
@@ -62,6 +64,30 @@ def run_measure(R, cfg):
     D.prove_list(R, sp, f)
 
 
+def run_default_limit(R, cfg, expected, doc):
+    """time_limit left at its default (None): the limit in force is the documented one, and the episode ends exactly there.  The
+    documented default is a function of sizes (Cleaner: num_rows * num_cols) that coincide on square grids."""
+    from envs import configs as CF
+    import jax
+    env = CF.make(cfg, time_limit=None) if False else None
+    g = CF._b()
+    base_, _, var = cfg.partition("@")
+    if base_ == "Cleaner":
+        from jumanji import environments as E
+        r, c, a = (int(x) for x in var.split("x"))
+        env = E.Cleaner(generator=g["CleanerGen"](num_rows=r, num_cols=c, num_agents=a))
+    R.bound(config=cfg, time_limit="default (None)", documented=doc)
+    R.structural(f"{cfg}: default time limit == {doc} == {expected}", int(env.time_limit) == expected, {"config": cfg, "env.time_limit": int(env.time_limit), "documented": expected})
+    spec_max = int(np.asarray(env.observation_spec["step_count"].maximum)) if hasattr(env.observation_spec, "__getitem__") else None
+    R.structural(f"{cfg}: the step_count spec admits exactly the documented horizon", spec_max in (expected, None), {"spec maximum": spec_max})
+    H = base.get(cfg, time_limit=int(env.time_limit))
+    H.env = env
+    H.T = int(env.time_limit)
+    if H.T == expected:
+        sp = D.build_step(R, H, validate=0)
+        D.prove_list(R, sp, tl_obl(H))
+
+
 def jobs(tier, seed):
     js = []
     for name in base.available():
@@ -80,4 +106,6 @@ def jobs(tier, seed):
             # (MultiCVRP: the documented horizon 2*num_customers vs. num_vehicles == 2 everywhere in the defaults)
             for cfg in cfgs + list(getattr(cls, "C11_HORIZON_EXTRA", [])):
                 js.append((f"{cfg}/horizon", "checks.C11", "run_measure", {"cfg": cfg}))
+    js.append(("Cleaner@3x5x2/default-limit", "checks.C11", "run_default_limit", {"cfg": "Cleaner@3x5x2", "expected": 15, "doc": "num_rows * num_cols"}))
+    js.append(("Cleaner@4x3x2/default-limit", "checks.C11", "run_default_limit", {"cfg": "Cleaner@4x3x2", "expected": 12, "doc": "num_rows * num_cols"}))
     return js
